@@ -1638,7 +1638,8 @@ def chain_table(fb, name, kinds, n_tests=4):
         def icpt(mc, cn, a, tt, g):
             end = cn.rsplit("::", 1)[-1]
             symb = any(isinstance(x, Sym) for x in a)
-            unresolved = (tt.get("fn") or {}).get("resolved") is None
+            # (a trait method named through the trait — a function item handed around as a comparator — is as unresolved as a call)
+            unresolved = (tt.get("fn") or {}).get("resolved") is None or cn.startswith(("std::cmp::PartialOrd::", "std::cmp::PartialEq::"))
             if cn.endswith("NumCast::from") and len(a) == 1:
                 return some(Sym("ToReal", a[0])) if isinstance(a[0], (Sym, int)) else UNKNOWN
             if end in ("zero", "one") and ("Zero::" in cn or "One::" in cn) and not a:
@@ -1750,4 +1751,89 @@ def rule_chain_grid(ctx, rule):
         ctx.oblige(bad is None)
         if bad:
             ctx.report(rule, opn + "/triples", "an n-ary comparison is not the conjunction of its adjacent pairs: " + bad, where_of(f))
+    return decided
+
+
+MAXMIN_VALUES = {
+    "Integer": [(-1,), (0,), (1,), (16777216,), (16777217,), (2147483646,), (2147483647,), (-16777217,)],
+    "Rational": [(1, 3), (-1, 2), (33554433, 2), (16777217, 1), (33554431, 2)],
+}
+
+
+def _i32_safe(x, env):
+    """every integer sub-expression of x stays inside i32 at this point (the fixed-width arithmetic is then the mathematical one)"""
+    from .absint import Sym
+    if isinstance(x, Sym) and x.args:
+        if not all(_i32_safe(a_, env) for a_ in x.args):
+            return False
+        if x.op in ("Mul", "Add", "Sub", "Neg", "Abs"):
+            v = _ev(x, env)
+            return v is not None and -2147483648 <= v <= 2147483647
+    return True
+
+
+def rule_maxmin_grid(ctx, rule):
+    """max / min of two EXACT operands is the numerically extreme one, as the number it is: on pairs of integers and ratios around 2^24
+    and 2^31 (values a binary32 image cannot tell apart) the path a point selects returns the extreme operand"""
+    fb = ctx.fb()
+    from .ctx import where_of
+    from fractions import Fraction
+    import itertools
+    decided = 0
+    for name in ("max", "min"):
+        bad, points, f = None, 0, None
+        for kinds in itertools.product(("Integer", "Rational"), repeat=2):
+            t = chain_table(fb, name, kinds, n_tests=3)
+            if t is None:
+                break
+            f, paths = t
+            good = [p for p in paths if "stuck" not in p]
+            if not good:
+                continue
+            for combo in itertools.product(*[MAXMIN_VALUES[k_] for k_ in kinds]):
+                env = {}
+                for syms, tup in zip(good[0]["osyms"], combo):
+                    for s_, v_ in zip(syms, tup):
+                        env[s_] = v_
+                vals = [Fraction(*tup) for tup in combo]
+                want = max(vals) if name == "max" else min(vals)
+                hit = None
+                for p in good:
+                    if not all(_i32_safe(t_[1], env) and _i32_safe(t_[2], env) for t_ in p["tests"]):
+                        hit = None
+                        break
+                    hs = [_test_holds(t_, env) for t_ in p["tests"]]
+                    if None in hs or any(h != t_[3] for h, t_ in zip(hs, p["tests"])):
+                        continue
+                    hit = p
+                    break
+                if hit is None or getattr(hit["result"], "name", None) != "Ok":
+                    continue
+                got = None
+                for kn in ("Integer", "Rational"):
+                    e = [x for x in find_enum(hit["result"], kn) if getattr(x, "adt", None) in (None, "values::Number")]
+                    if e:
+                        pv = [_ev(x, env) for x in e[0].fields]
+                        if all(isinstance(v, int) and not isinstance(v, bool) for v in pv) and (kn == "Integer" or (len(pv) == 2 and pv[1] != 0)):
+                            got = Fraction(*pv)
+                        break
+                if got is None:
+                    continue
+                points += 1
+                if got != want and bad is None:
+                    lit = lambda tup: "%d" % tup[0] if len(tup) == 1 else "%d/%d" % tup
+                    bad = "(%s %s) gives %s; the numerically %s argument is %s (tests on the way: %s)" % (
+                        name, " ".join(lit(tup) for tup in combo), got, "largest" if name == "max" else "smallest", want,
+                        [(t_[0], repr(t_[1]), repr(t_[2]), t_[3]) for t_ in hit["tests"]])
+        if f is None:
+            ctx.undecided(rule, name + "/exact-pairs", "%s is not registered as a builtin function" % name)
+            continue
+        if not points:
+            ctx.undecided(rule, name + "/exact-pairs", "cannot follow %s on exact operands with symbolic payloads" % f.name, where_of(f))
+            continue
+        decided += 1
+        ctx.inst(rule, name + "/exact-pairs", {"points": points})
+        ctx.oblige(bad is None)
+        if bad:
+            ctx.report(rule, name + "/exact-pairs", "max / min of exact arguments is not the numerically extreme one: " + bad, where_of(f))
     return decided
